@@ -293,21 +293,7 @@ func (r *SparseInt32Vector) VdivS(a ConstVector, b ConstScalar) Vector {
   return r
 }
 func (r *SparseInt32Vector) VDIVS(a *SparseInt32Vector, b Int32) *SparseInt32Vector {
-  if r.Dim() != a.Dim() {
-    panic("vector dimensions do not match")
-  }
-  for it := r.JOINT_ITERATOR_(a); it.Ok(); it.Next() {
-    s_r := it.s1
-    s_a := it.s2
-    if s_r.ptr == nil {
-      s_r = r.AT(it.Index())
-    }
-    if s_a.ptr == nil {
-      s_r.SetInt32(0.0)
-    } else {
-      s_r.DIV(s_a, b)
-    }
-  }
+  r.VdivS(a, b)
   return r
 }
 /* -------------------------------------------------------------------------- */
